@@ -64,7 +64,7 @@ func c02Profiles(tier Tier) []*explore.Profile {
 			return acts
 		},
 	}
-	return []*explore.Profile{supply, others, amountsProfile("C02", tier), highNonceProfile("high-nonce", tier, orc, 2)}
+	return []*explore.Profile{supply, others, amountsProfile("C02", tier), wideTransfersProfile(tier, orc), highNonceProfile("high-nonce", tier, orc, 2)}
 }
 
 func init() { LedgerProfiles["C02"] = c02Profiles }
